@@ -3,6 +3,7 @@
 //@ assume: T4: skill `process` bodies and `DifficultyValues::eval` are replaced by no-op stubs during verification (float pipelines); their frame - they do not write idx, the object arrays or the count fields - is assumed. Native replays run the real skills.
 //@ assume: inductive-step argument: obligations are proved from ANY state satisfying the representation invariant (osu_objects.len()==N, diff_objects.len()==max(N,1)-1, idx<=diff_objects.len()+1, N==0 ==> idx==0, attrs count max(idx,1) objects); `new` establishing the invariant is covered by U12.osu.new_shape (structural) only
 //@ assume: bounded: N (number of hit objects) is fixed per harness; objects are circles with symbolic times; idx and the nth argument are fully symbolic
+//@ attr: file=src/osu/performance/gradual.rs anchor=`pub fn next(&mut self, state: OsuScoreState)` insert=`#[cfg(kani)] pub(crate) fn __verif_from_parts(lazer: bool, difficulty: OsuGradualDifficulty) -> Self { Self { lazer, difficulty } }`
 use super::*;
 use crate::any::difficulty::skills::StrainSkill;
 use crate::model::beatmap::BeatmapAttributesBuilder;
@@ -200,3 +201,124 @@ h!(u12_osu_processed_n2, step_processed, 2);
 //@ bound: bounded: N = 3 objects; idx, k all usize
 //@ clause: as U12.osu.processed.n2
 h!(u12_osu_processed_n3, step_processed, 3);
+
+// ---- C03: gradual performance = one-shot performance of the partial play ------------------------------------------
+use crate::osu::performance::gradual::OsuGradualPerformance;
+use crate::osu::performance::OsuPerformance;
+use crate::osu::{OsuPerformanceAttributes, OsuScoreState};
+use crate::util::map_or_attrs::MapOrAttrs;
+
+static mut REC: Option<OsuPerformance<'static>> = None;
+static mut REC_CALLS: u32 = 0;
+
+/// Recording replacement for `OsuPerformance::calculate` (the float pp pipeline): keeps the builder it is called on.
+fn rec_calculate(this: OsuPerformance<'_>) -> Result<OsuPerformanceAttributes, ConvertError> {
+    unsafe {
+        REC_CALLS += 1;
+        REC = Some(mem::transmute::<OsuPerformance<'_>, OsuPerformance<'static>>(this));
+    }
+    Ok(OsuPerformanceAttributes::default())
+}
+
+fn any_user_difficulty() -> Difficulty {
+    let bits: u32 = kani::any();
+    let mut d = Difficulty::new().mods(bits);
+    if kani::any() {
+        d = d.passed_objects(kani::any());
+    }
+    if kani::any() {
+        d = d.clock_rate(kani::any());
+    }
+    if kani::any() {
+        d = d.lazer(kani::any());
+    }
+    d
+}
+
+fn perf_step(n: usize) {
+    let mut g = any_state(n);
+    // the settings the caller created the gradual calculator with (possibly carrying their own passed_objects)
+    g.difficulty = any_user_difficulty();
+    let d = g.difficulty.clone();
+    let lazer = d.get_lazer();
+    let idx0 = g.idx;
+    let remaining = n - idx0;
+    let mut p = OsuGradualPerformance::__verif_from_parts(lazer, g);
+    let state = OsuScoreState {
+        max_combo: kani::any(),
+        large_tick_hits: kani::any(),
+        small_tick_hits: kani::any(),
+        slider_end_hits: kani::any(),
+        n300: kani::any(),
+        n100: kani::any(),
+        n50: kani::any(),
+        misses: kani::any(),
+    };
+    let which: u8 = kani::any();
+    let k: usize = kani::any();
+    let (ret, consumed) = match which % 3 {
+        0 => (p.next(state.clone()), if remaining > 0 { 1 } else { 0 }),
+        1 => (p.last(state.clone()), remaining),
+        _ => (p.nth(state.clone(), k), if k < remaining { k + 1 } else { remaining }),
+    };
+    assert!(p.len() == remaining - consumed, "C15.e gradual performance processes min(n+1, remaining) objects (last: all remaining)");
+    assert!(ret.is_some() == (remaining > 0), "C15.e gradual performance returns None exactly when nothing remains");
+    unsafe {
+        if remaining == 0 {
+            assert!(REC_CALLS == 0, "C03 nothing is calculated when nothing remains");
+        } else {
+            assert!(REC_CALLS == 1, "C03 exactly one performance calculation per step");
+            let i = (idx0 + consumed) as u32;
+            match REC.take() {
+                Some(rec) => {
+                    let attrs = match &rec.map_or_attrs {
+                        MapOrAttrs::Attrs(a) => a.clone(),
+                        MapOrAttrs::Map(_) => {
+                            assert!(false, "C03 gradual performance evaluates the attributes of the prefix, not a map");
+                            return;
+                        }
+                    };
+                    assert!(attrs.n_objects() == i, "C03 the evaluated attributes are those after i objects");
+                    // what a one-shot user builds: Performance(attrs).difficulty(D).passed_objects(i).state(S)
+                    let expect = OsuPerformance::from_map_or_attrs(MapOrAttrs::Attrs(attrs))
+                        .difficulty(d)
+                        .passed_objects(i)
+                        .state(state);
+                    assert!(rec.difficulty.get_lazer() == lazer, "C03 lazer flag of the settings is forwarded");
+                    assert!(rec == expect, "C03 gradual performance evaluates exactly the one-shot builder: same settings, passed_objects(i), same state");
+                    mem::forget(rec);
+                    mem::forget(expect);
+                }
+                None => assert!(false, "C03 builder recorded"),
+            }
+        }
+    }
+    mem::forget(p);
+}
+
+macro_rules! hp {
+    ($name:ident, $n:expr) => {
+        #[kani::proof]
+        #[kani::unwind(8)]
+        #[kani::stub(crate::osu::difficulty::DifficultyValues::eval, stub_eval)]
+        #[kani::stub(crate::osu::difficulty::skills::OsuSkills::process, stub_process)]
+        #[kani::stub(<Aim as StrainSkill>::process, stub_aim_process)]
+        #[kani::stub(<Speed as StrainSkill>::process, stub_speed_process)]
+        #[kani::stub(<Flashlight as StrainSkill>::process, stub_fl_process)]
+        #[kani::stub(crate::osu::performance::OsuPerformance::calculate, rec_calculate)]
+        fn $name() {
+            perf_step($n);
+        }
+    };
+}
+
+//@ obl: id=U12.osu.perf.n0 harness=u12_osu_perf_n0 stubs=yes props=C03,C15 tier=quick kind=bounded
+//@ fns: OsuGradualPerformance::next, OsuGradualPerformance::nth, OsuGradualPerformance::last, OsuGradualPerformance::len
+//@ bound: bounded: N = 0 objects; state position, n, the score state (all u32 fields) and the caller's Difficulty (mods bits, passed_objects, clock rate, lazer) symbolic; OsuPerformance::calculate replaced by a recording stub
+//@ clause: C15 (e): nth(state, n) processes min(n+1, remaining) objects, last processes all remaining, next one; None exactly when nothing remains. C03: the performance builder that gets calculated equals Performance(attributes after i objects).difficulty(D).passed_objects(i).state(S) field for field, i = objects consumed so far
+hp!(u12_osu_perf_n0, 0);
+//@ obl: id=U12.osu.perf.n2 harness=u12_osu_perf_n2 stubs=yes props=C03,C15 tier=quick kind=bounded
+//@ fns: OsuGradualPerformance::next, OsuGradualPerformance::nth, OsuGradualPerformance::last, OsuGradualPerformance::len
+//@ bound: bounded: N = 2 objects; otherwise as U12.osu.perf.n0
+//@ clause: as U12.osu.perf.n0
+hp!(u12_osu_perf_n2, 2);
